@@ -86,7 +86,7 @@ pub fn boundary_event<V: Fv>(rng: &mut impl RngCore, norm: i64, k: usize, sign: 
     let pkb = pk_bytes(&h, V::LOGN);
     let mut s2 = vec![0i16; n];
     s2[k] = sign as i16;
-    let body = verif::compress(&s2, V::SIG_LEN - 41).unwrap();
+    let body = pack_coeffs(&s2, V::SIG_LEN - 41);
     verify_event::<V>(&msg, &sig_bytes::<V>(&salt, &body), &pkb, tag)
 }
 
@@ -122,7 +122,7 @@ pub fn edge_event<V: Fv>(rng: &mut impl RngCore, positive: bool, tag: &str) -> V
     let pkb = pk_bytes(&h, V::LOGN);
     let mut s2 = vec![0i16; n];
     s2[0] = 1;
-    let body = verif::compress(&s2, V::SIG_LEN - 41).unwrap();
+    let body = pack_coeffs(&s2, V::SIG_LEN - 41);
     verify_event::<V>(&msg, &sig_bytes::<V>(&salt, &body), &pkb, tag)
 }
 
@@ -302,6 +302,36 @@ pub fn c02_corpus<V: Fv>(seed: u64, thorough: bool, out: &mut Shards) {
     }
 }
 
+/// Cross-variant sequences: a Falcon-1024 public key whose h is a Falcon-512 key's h padded with zero coefficients (and a
+/// Falcon-512 key cut out of a Falcon-1024 key's h), verified right before a genuine signature of the other variant on the
+/// same thread (state keyed by the polynomial but not by the degree / variant).
+fn cross_variant_sequences(seed: u64, out: &mut Shards) {
+    let mut rng = rng_for(seed, "c02-cross-variant");
+    let (sk5, pk5) = V512::keygen(rng.gen());
+    let (sk10, pk10) = V1024::keygen(rng.gen());
+    let msg = b"cross variant".to_vec();
+    let sig5 = V512::sig_to_bytes(&V512::sign(&msg, &sk5));
+    let sig10 = V1024::sig_to_bytes(&V1024::sign(&msg, &sk10));
+    let pkb5 = V512::pk_to_bytes(&pk5);
+    let pkb10 = V1024::pk_to_bytes(&pk10);
+    // decode the 14-bit fields
+    let fields = |b: &[u8]| -> Vec<i32> {
+        let nb = (b.len() - 1) * 8 / 14;
+        (0..nb).map(|i| (0..14).fold(0i32, |a, j| { let bit = 8 + 14 * i + j; (a << 1) | ((b[bit / 8] >> (7 - bit % 8)) & 1) as i32 })).collect()
+    };
+    let h5 = fields(&pkb5);
+    let h10 = fields(&pkb10);
+    let mut padded = h5.clone();
+    padded.resize(1024, 0);
+    let pk_padded = pk_bytes(&padded, 10);
+    let pk_cut = pk_bytes(&h10[..512].to_vec(), 9);
+    out.emit(verify_event::<V1024>(&msg, &sig10, &pk_padded, "xvariant-1024-key-from-padded-512-h"));
+    out.emit(verify_event::<V512>(&msg, &sig5, &pkb5, "xvariant-genuine-512-after-padded"));
+    out.emit(verify_event::<V512>(&msg, &sig5, &pk_cut, "xvariant-512-key-cut-from-1024-h"));
+    out.emit(verify_event::<V1024>(&msg, &sig10, &pkb10, "xvariant-genuine-1024-after-cut"));
+    out.emit(verify_event::<V512>(&msg, &sig5, &pkb5, "xvariant-genuine-512-again"));
+}
+
 pub fn c02(args: &Args) {
     let seed = args.num("--seed", 1);
     let dir = std::path::PathBuf::from(args.get_or("--out", "work/c02"));
@@ -309,5 +339,8 @@ pub fn c02(args: &Args) {
     let mut out = Shards::create(&dir, "verify", shards);
     c02_corpus::<V512>(seed, args.thorough(), &mut out);
     c02_corpus::<V1024>(seed, args.thorough(), &mut out);
-    println!("events {}", out.finish());
+    // the cross-variant family must be consecutive on this thread: it goes into one shard of its own
+    let mut xo = Shards::create(&dir, "verifyx", 1);
+    cross_variant_sequences(seed, &mut xo);
+    println!("events {}", out.finish() + xo.finish());
 }
